@@ -76,7 +76,7 @@ def _gen():
     yield 2
 
 
-N_KINDS = 35
+N_KINDS = 37
 
 
 def offending(kind, exc_kind=0):
@@ -155,6 +155,18 @@ def offending(kind, exc_kind=0):
     if kind == 34:
         from vlib.graphs import Impostor
         return Impostor(3), False        # __class__ lies about the type
+    if kind == 35:
+        class LazyBag(list):
+            def __bool__(self):
+                raise RuntimeError("truth value is ambiguous")
+
+            def __len__(self):
+                raise RuntimeError("not loaded")
+        return LazyBag(), True
+    if kind == 36:
+        class EmptyBag(list):
+            pass
+        return EmptyBag(), False
     raise ValueError(kind)
 
 
@@ -174,6 +186,8 @@ def place(value, pos):
         return {"before": 1, "bad": {"x": value, "y": 2}, "after": "z"}
     if pos == 3:
         return {"before": 1, "bad": Holder(value), "after": "z"}
+    if pos == 5:
+        return {"before": 1, "self": value, "after": "z"}       # the receiver of a method
     return {"before": 1, "src": [value], "after": "z"}      # pos 4: reached only through the watch 'src[0]'
 
 
@@ -190,7 +204,7 @@ def _check_one(s, f_locals, hostile, watch_expr=None):
     if hostile:
         # the hostile object itself has no fixed text; containers are rendered as 'Size: n' so they stay checkable
         for o in _iter_objs(f_locals):
-            if type(o).__name__ in ("BadStr", "BadRepr", "BadLen", "BadAttr", "BadDictProp", "BadKeyStr", "Holder") or \
+            if type(o).__name__ in ("BadStr", "BadRepr", "BadLen", "BadAttr", "BadDictProp", "BadKeyStr", "Holder", "LazyBag") or \
                     (type(o) is int and o > 10 ** 100):
                 hid.add(id(o))
             if type(o) is dict and any(type(k).__name__ == "BadKeyStr" for k in o):
@@ -240,7 +254,7 @@ def total(kind: int, pos: int, ek: int, ntp: int, conv: int) -> str:
     SystemExit / GeneratorExit) at one of 5 positions, 1-3 snapshot tracepoints on the line (the last one with a watch):
     one snapshot per tracepoint is delivered and converts, every other variable is intact, the offending value has an
     entry with its real type name, each snapshot is complete and closed on its own.
-    PRE: 0 <= kind <= 34 and 0 <= pos <= 4 and 0 <= ek <= 5 and 1 <= ntp <= 3 and 0 <= conv <= 1
+    PRE: 0 <= kind <= 36 and 0 <= pos <= 5 and 0 <= ek <= 5 and 1 <= ntp <= 3 and 0 <= conv <= 1
     PRE: ek == 0 or kind in (16, 17, 18, 19, 20, 22)
     POST: _ == ""
     """
@@ -251,7 +265,7 @@ def total(kind: int, pos: int, ek: int, ntp: int, conv: int) -> str:
     value, hostile = offending(kind, ek)
     f_locals = place(value, pos)
     w = World()
-    watch = "src[0]" if pos == 4 else "bad"
+    watch = "src[0]" if pos == 4 else ("self" if pos == 5 else "bad")
     trigs = []
     for i in range(ntp):
         watches = [watch] if (i == ntp - 1) else []
@@ -354,11 +368,11 @@ def _mut_shared_table():
 MUTANTS = {"shared_table": _mut_shared_table, "dict_unguarded": _mut_dict_unguarded, "str_unguarded": _mut_str_unguarded, "key_names_raw": _mut_key_names_raw}
 
 CONDITIONS = [
-    dict(fn="total", cubes={"quick": ["kind == %d and ntp == %d and conv == %d" % (k, 1 + (k % 3), 0 if k in (31, 32) else 1) for k in range(35)] +
+    dict(fn="total", cubes={"quick": ["kind == %d and ntp == %d and conv == %d" % (k, 1 + (k % 3), 0 if k in (31, 32) else 1) for k in range(37)] +
                                      ["kind == %d and ntp == %d and conv == 1" % (k, n) for k in (0, 8, 16, 19) for n in (1, 2, 3)],
-                            "thorough": ["kind == %d and ntp == %d and conv == %d" % (k, n, 0 if k in (31, 32) else 1) for k in range(35) for n in (1, 2, 3)]},
+                            "thorough": ["kind == %d and ntp == %d and conv == %d" % (k, n, 0 if k in (31, 32) else 1) for k in range(37) for n in (1, 2, 3)]},
          twins=["reach", "mutant:dict_unguarded@kind == 0 and ntp == 1 and conv == 1", "mutant:str_unguarded@kind == 17 and ntp == 1 and conv == 1",
                 "mutant:key_names_raw@kind == 8 and ntp == 1 and conv == 1", "mutant:shared_table@kind == 0 and ntp == 2 and conv == 1"],
-         bounds="35 offending-value kinds x 5 positions (local, list element, dict value, object attribute, watch-only) x 6 exception classes for the hostile kinds; "
+         bounds="37 offending-value kinds x 6 positions (local, list element, dict value, object attribute, watch-only, the local named `self`) x 6 exception classes for the hostile kinds; "
                 "1-3 tracepoints on the line, the last with a watch (quick: one tracepoint count per kind, all three for 4 kinds; thorough: all); real protobuf conversion + serialisation of every snapshot"),
 ]
